@@ -32,6 +32,41 @@ func runRaceMisc(o *opts) (*summary, error) {
 	}
 	rng := rand.New(rand.NewSource(o.seed))
 	var rmu sync.Mutex
+
+	// (0) cold start: the very first calls of the process - one goroutine per operation, all released at once, on one
+	// client over the scripted transport (whatever the codec or the client memoises on first use is being filled in
+	// concurrently), then a second wave on a second client
+	for wave := 0; wave < 2; wave++ {
+		u, d := stubClient(stubCfgs[1+wave])
+		d.script = func(method string, req []byte) [][]byte {
+			for op, l := range lt.Rsp {
+				if len(req) > 1 && l.Code == int(req[1]) && op != "" {
+					rmu.Lock()
+					m := l.message(rng, 0x17, req[4:8], "valid", nil)
+					rmu.Unlock()
+					return [][]byte{m}
+				}
+			}
+			return nil
+		}
+		calls := []callSpec{}
+		g := &G{r: rand.New(rand.NewSource(o.seed + int64(wave))), inDomain: true}
+		for _, op := range allOps {
+			calls = append(calls, g.call(op, 405419896), g.call(op, 303986753))
+		}
+		gate := make(chan struct{})
+		var wg sync.WaitGroup
+		for _, cs := range calls {
+			wg.Add(1)
+			go func(cs callSpec) {
+				defer wg.Done()
+				<-gate
+				guard(func() { cs.call(u) })
+			}(cs)
+		}
+		close(gate)
+		wg.Wait()
+	}
 	tick := 20 * time.Millisecond
 	T := 3
 
